@@ -423,8 +423,37 @@ type expectation struct {
 	Exact bool
 	// MustFail is non-empty when the documented contract requires an error ("not-found", "is-import").
 	MustFail string
-	L, U     *bounds
-	EffExcl  func(string) bool
+	// PkgShapes: for every included package name, how its files are split between target and
+	// import files (see pkgShape). Coverage counter only; the demand itself is MustFail.
+	PkgShapes []string
+	L, U      *bounds
+	EffExcl   func(string) bool
+}
+
+// pkgShape classifies the files of a package (in image order) by their import flag. The documented
+// contract of FilterImage: including a package is rejected with ErrImageFilterTypeIsImport only when
+// ALL of its files are imports; a package that has at least one target file is a name "that exists
+// in the image" in the sense of the property, whatever else declares the same package.
+func pkgShape(files []*fileM) string {
+	imports := 0
+	for _, f := range files {
+		if f.Import {
+			imports++
+		}
+	}
+	switch {
+	case imports == 0:
+		return "all-target"
+	case imports == len(files):
+		return "all-import"
+	case files[0].Import && files[len(files)-1].Import:
+		return "mixed-import-first-and-last"
+	case files[0].Import:
+		return "mixed-import-first"
+	case files[len(files)-1].Import:
+		return "mixed-import-last"
+	}
+	return "mixed-import-inside"
 }
 
 func (m *imageModel) isName(n string) bool {
@@ -741,6 +770,7 @@ func (m *imageModel) expect(fc *filterCase) *expectation {
 			}
 			continue
 		}
+		ex.PkgShapes = appendUnique(ex.PkgShapes, pkgShape(m.Pkgs[n]))
 		onlyImports := true
 		for _, f := range m.Pkgs[n] {
 			if !f.Import {
